@@ -30,7 +30,7 @@ def gen_cases(tier, seed):
             k += 1
     nrand = 380 if tier == "quick" else 7000
     for _ in range(nrand):
-        fam = str(rng.choice(["QP", "NLP", "DEG", "BAND"], p=[0.4, 0.4, 0.15, 0.05]))
+        fam = str(rng.choice(["QP", "NLP", "DEG", "BAND", "NARROW"], p=[0.38, 0.38, 0.14, 0.05, 0.05]))
         c = C.sample(rng) if rng.random() < 0.6 else dict(C.DEFAULT, scaling=str(rng.choice(C.SCALING)))
         cases.append(_case(rng, fam, [seed, k], c))
         k += 1
